@@ -41,6 +41,13 @@ def monitor(op, out):
         pe.append((int(p), e))
     member = all(p < n and arr[p] == e for p, e in pe)
     kind = "vector commitment" if vc == "1" else "plain tree"
+    palg = f[1].split("/")[-1]
+    if res == "ok" and palg.isdigit() and int(palg) >= 4:
+        p, e = pe[0]
+        return ("invalid-hash-type", "%s of %d elements%s: a proof whose HashFactory has the invalid hash type %s verifies element %s at position %d%s"
+                % (kind, n, " (root = empty digest)" if n == 0 and honest_root else "", palg,
+                   ("arr[%d]" % arr.index(e)) if e in arr else "that is not in the array", p,
+                   "" if honest_root else " against a root that is not the array's"))
     if res == "ok":
         if not honest_root:
             return ("different-root", "%s: a proof verifies against a root that is not the root of the array" % kind)
@@ -103,20 +110,25 @@ def run(ctx, replay_ops=None):
     facts_path = os.path.join(ctx.work, "c37.facts")
     if rc != 0 or not os.path.exists(facts_path):
         ctx.tie_failures.append("fact extraction TestVerifC37Facts failed (rc=%d): %s" % (rc, out[-400:]))
-        enc, dep = "fixed", "depth"
+        enc, dep, hck = "fixed", "depth", "hashcheck"
     else:
-        enc, dep = open(facts_path).read().split()[:2]
+        enc, dep, hck = (open(facts_path).read().split() + ["other"])[:3]
     ctx.cov["distribution"]["fact:encoding=" + enc] = 1
     ctx.cov["distribution"]["fact:depthcheck=" + dep] = 1
-    ctx.notes.append("source facts observed on the real code: pair encoding=%s, TreeDepth check=%s" % (enc, dep))
-    ctx.say("C37 facts: encoding=%s depthcheck=%s" % (enc, dep))
+    ctx.cov["distribution"]["fact:hashcheck=" + hck] = 1
+    ctx.notes.append("source facts observed on the real code: pair encoding=%s, TreeDepth check=%s, HashFactory validity check=%s" % (enc, dep, hck))
+    ctx.say("C37 facts: encoding=%s depthcheck=%s hashcheck=%s" % (enc, dep, hck))
     if enc != "fixed":
         ctx.tie_failures.append("pair.ToBeHashed writes the right child at %s: theorem verify_sound is about the fixed-offset encoding and does not "
                                 "apply to this tree (verify_unsound_witness does)" % ("len(left)" if enc == "lenl" else "an unrecognised offset"))
     if dep != "depth":
         ctx.tie_failures.append("verifyPath does not compare the levels walked with Proof.TreeDepth (%s): the depth clause of verify_sound and verifyVC_sound do not "
                                 "apply to this tree (vc_depth_unsound_witness / depth_unchecked_witness do)" % dep)
-    args = ["fixed" if enc == "fixed" else "lenl", "depth" if dep == "depth" else "nodepth"]
+    if hck != "hashcheck":
+        ctx.tie_failures.append("Verify uses a proof's HashFactory without validating it (%s): the soundness theorems assume a hash with non-empty digests "
+                                "(hypothesis hnz), which an invalid factory violates; invalid_hash_rejected does not apply (invalid_hash_unsound_witness does)" % hck)
+    args = ["fixed" if enc == "fixed" else "lenl", "depth" if dep == "depth" else "nodepth",
+            "hashcheck" if hck == "hashcheck" else "nohashcheck"]
 
     env = {"VERIF_C37_CORPUS": os.path.join(os.path.dirname(os.path.dirname(os.path.abspath(__file__))), "corpus", "C37")}
     if not proved:
@@ -125,7 +137,8 @@ def run(ctx, replay_ops=None):
                        "(sha512 on a few shapes): Build+Prove+Verify (pv); for each, a stream of single-field mutations of the honest proof "
                        "(element fresh/other/extended; position ±1, n, n+1, 2^depth, sibling, all positions < 2^(depth+1) for singletons; root bit/empty/extended; "
                        "path entry emptied/extended/zeros/too long/bit flip/truncated/shifted/dropped/duplicated/swapped/appended; elements dropped/added; "
-                       "TreeDepth ±1, +2, 0, 63, 64, 255; TreeDepth±k with positions re-mapped by 2^k) as complete verification instances (vf); "
+                       "TreeDepth ±1, +2, 0, 63, 64, 255; TreeDepth±k with positions re-mapped by 2^k; proof HashFactory = other valid type / invalid types 4, 99, 65535 "
+                       "with the honest or the empty root and path) as complete verification instances (vf); the EMPTY array against every proof shape; "
                        "seeded random arrays up to 1024 leaves with random subsets; all |l|,|r| ≤ 2d+2 for pair.ToBeHashed; SHA validation vectors. "
                        "trivial = arrays of ≤ 1 element / empty subsets; distinct = distinct op lines (elements are globally distinct)")
     res = common.correspondence(ctx, pkg="./crypto/merklearray", test="TestVerifC37", name="c37",
@@ -162,6 +175,9 @@ def run(ctx, replay_ops=None):
     if enc != "fixed" and not ({"out-of-range-position", "wrong-element-or-position"} & set(hits)):
         ctx.violation("pair encoding %s: verify_sound does not apply and no accepted forged position was found" % enc,
                       {"kind": "unchecked", "broken_ties": ["encoding=" + enc]}, found_input=False)
+    if hck != "hashcheck" and "invalid-hash-type" not in hits:
+        ctx.violation("HashFactory validity check %s: no accepted proof with an invalid hash type was found" % hck,
+                      {"kind": "unchecked", "broken_ties": ["hashcheck=" + hck]}, found_input=False)
     if dep != "depth" and "tree-depth" not in hits:
         ctx.violation("TreeDepth check %s: depth_rule does not apply and no accepted wrong-depth proof was found" % dep,
                       {"kind": "unchecked", "broken_ties": ["depthcheck=" + dep]}, found_input=False)
